@@ -17,6 +17,7 @@ func init() {
 }
 
 func runC06(c *mon.Ctx) {
+	runLookalikeAttrs(c, c.N(48, 600), []string{"Count"})
 	now := BaseTime(c.Seed)
 	w := NewWorld(now)
 	pool := &SPPool{}
